@@ -35,7 +35,16 @@ for cfg in ("all", "default", "checkpoint", "futures"):
     for a, d in p.adts.items():
         if d["kind"] == "struct" and len(d["variants"]) == 1:
             adts[a] = [[x["name"], x["ty"]] for x in d["variants"][0]["fields"]]
+# guard vocabulary of the effect sites (lint/spec/guardvocab.py), computed on the *normalised* program of each configuration
+os.environ.pop("VERIF_NO_INLINE", None)
+facts._loaded.clear()
+from lint.spec import guardvocab
+vocab = {}
+for cfg in ("all", "default", "checkpoint", "futures"):
+    p = facts.load(cfg)
+    for k, v in guardvocab.site_vocab(p).items():
+        vocab[k] = sorted(set(vocab.get(k, [])) | set(v))
 out = os.path.join(os.path.dirname(os.path.abspath(__file__)), "..", "lint", "reference.json")
 with open(out, "w") as fh:
-    json.dump(dict(fns=fns, adts=adts, closures=closures), fh, indent=0, sort_keys=True)
+    json.dump(dict(fns=fns, adts=adts, closures=closures, guard_vocab=vocab), fh, indent=0, sort_keys=True)
 print(len(fns), "functions,", len(adts), "structs,", len(closures), "closures written")
